@@ -24,9 +24,6 @@ Definition tseitin_numvar (E : list (Z * Z)) : Z := len E.
 (* total charge of the vertices selected by S, modulo 2 *)
 Definition charge_parity (ch : option (list bool)) (S : Z -> bool) (n : Z) : bool :=
   fold_right xorb false (map (fun v => S v && tseitin_charge ch v) (rng n)).
-(* S is a union of connected components: no edge leaves S *)
-Definition closed_under_edges (S : Z -> bool) (E : list (Z * Z)) : Prop :=
-  forall e, In e E -> S (fst e) = S (snd e).
 
 (* ---------- executable notions used only in the unproved full statements and in examples ---------- *)
 (* connected components by label propagation: every vertex starts with its own number, one round
